@@ -490,6 +490,25 @@ fn legacy_items(
             push("proof_forged_whole_fake_item", wrap(&r));
         }
     }
+    // an ADDED part listing a never-certified hash with a character-for-character copy of a genuine
+    // part's proof (and the same for a duplicated genuine part carrying an extra fake hash)
+    if let Some(p0) = m.certified_transactions.first() {
+        for (class, pos_last) in [("added_part_fake_hash_with_copy_of_genuine_proof_last", true), ("added_part_fake_hash_with_copy_of_genuine_proof_first", false)] {
+            let mut r = m.clone();
+            let part = CardanoTransactionsSetProofMessagePart { transactions_hashes: vec![fake.clone()], proof: p0.proof.clone() };
+            if pos_last {
+                r.certified_transactions.push(part);
+            } else {
+                r.certified_transactions.insert(0, part);
+            }
+            push(class, wrap(&r));
+        }
+        let mut r = m.clone();
+        let mut part = p0.clone();
+        part.transactions_hashes.push(fake.clone());
+        r.certified_transactions.push(part);
+        push("added_part_copy_of_genuine_part_plus_fake_hash", wrap(&r));
+    }
     // honest parts of another certificate mixed in
     if let Some(Resp::Legacy(o)) = ctx.other_root {
         if let (Some(op), false) = (o.certified_transactions.first(), m.certified_transactions.is_empty()) {
